@@ -212,7 +212,8 @@ def guar_clauses(old, new, me) -> List[Tuple[str, z3.ExprRef, Tuple[str, ...]]]:
     cl.append(("G3.forgotten-monotone", n.forgotten >= o.forgotten, ("C03",)))
     cl.append(("G4.thread-ghost-immutable", z3.ForAll([t], z3.Implies(sel(o.kind, t) != K_NONE, z3.And(
         sel(n.kind, t) == sel(o.kind, t), sel(n.tid, t) == sel(o.tid, t), sel(n.grp, t) == sel(o.grp, t), sel(n.aw, t) == sel(o.aw, t),
-        sel(n.ecb, t) == sel(o.ecb, t), sel(n.ccb, t) == sel(o.ccb, t), sel(n.tname, t) == sel(o.tname, t), sel(n.msem, t) == sel(o.msem, t),
+        sel(n.ecb, t) == sel(o.ecb, t), sel(n.ccb, t) == sel(o.ccb, t), sel(n.tname, t) == sel(o.tname, t),
+        z3.Implies(sel(o.kind, t) == K_WRAPPER, sel(n.msem, t) == sel(o.msem, t)),
         z3.Implies(sel(o.cever, t), sel(n.cever, t)), z3.Implies(sel(o.loc, t) == L_DONE, z3.And(sel(n.loc, t) == L_DONE, sel(n.fcan, t) == sel(o.fcan, t)))))), ("C03", "C11")))
     cl.append(("G4w.wrapper-of-id-stable", z3.ForAll([i], z3.Implies(z3.And(0 <= i, i < o.n), sel(n.wt, i) == sel(o.wt, i))), ("C11",)))
     cl.append(("G5.lifecycle-moves", z3.ForAll([i], z3.And(
@@ -231,7 +232,8 @@ def guar_clauses(old, new, me) -> List[Tuple[str, z3.ExprRef, Tuple[str, ...]]]:
 def rely_me(old, new, me) -> List[z3.ExprRef]:
     o, n = PView(old), PView(new)
     sel = z3.Select
-    fs = [sel(n.loc, me) == sel(o.loc, me), sel(n.tok, me) == sel(o.tok, me), sel(n.mtok, me) == sel(o.mtok, me), sel(n.kind, me) == sel(o.kind, me)]
+    fs = [sel(n.loc, me) == sel(o.loc, me), sel(n.tok, me) == sel(o.tok, me), sel(n.mtok, me) == sel(o.mtok, me), sel(n.kind, me) == sel(o.kind, me),
+          sel(n.msem, me) == sel(o.msem, me)]
     return fs
 
 
@@ -911,6 +913,8 @@ class PoolTheory(Theory):
     def sem_release(self, st, fr, place, sem: SemV):
         ip = self.ip
         ip.require(st, f"pre:release:owns-token[{sem.tokarr}]", self.ghost(st, sem.tokarr, st.me), ("C02", "C01") if sem.tokarr == "tok" else ("C05",))
+        # counting permissions (meta-theorem, trusted): the number of owners never exceeds the outstanding tokens
+        st.assume(z3.Implies(self.ghost(st, sem.tokarr, st.me), sem.out >= 1))
         self.set_ghost(st, sem.tokarr, st.me, z3.BoolVal(False))
         s2 = self._mk_sem(sem, v=sem.v.add(1), out=sem.out - 1)
         ip.place_set(st, place, self.sem_wake_next(s2))
